@@ -448,13 +448,20 @@ class PG:
                 self.env[n] = f"Qint{max(w, self.w_of(self.env[n]))}"
                 self.feat.add(f"aug{o}")
         elif k == "if":
-            c = self.gbool(d - 1)
-            has_else = rng.random() < 0.5
+            # the test is often a bare bool variable; body and else assign independent target sets (in independent order),
+            # so that a branch may reassign the test variable itself before other assignments
+            c = rng.choice(bvars) if (bvars and rng.random() < 0.4) else self.gbool(d - 1)
+            has_else = rng.random() < 0.6
             lines_t, lines_e = [], []
-            targets = rng.sample(ivars + bvars, k=min(len(ivars + bvars), rng.randint(1, 2)))
+            allv = ivars + bvars
             neww = {}
-            for n in targets:
-                for lines in ([lines_t, lines_e] if has_else else [lines_t]):
+            for lines, on in ((lines_t, True), (lines_e, has_else)):
+                if not on:
+                    continue
+                targets = rng.sample(allv, k=min(len(allv), rng.randint(1, 3)))
+                if c in bvars and lines is lines_e and rng.random() < 0.5 and c not in targets:
+                    targets = [c] + targets
+                for n in targets:
                     if self.env[n] == "bool":
                         lines.append(f"{ind}    {n} = {self.gbool(d - 1)}")
                     else:
@@ -591,6 +598,15 @@ def core_programs(rng, n, cfg=None):
     pg = PG(rng, cfg)
     for _ in range(n):
         yield pg.program()
+
+
+def intchain_cfg(**kw):
+    """small programs that are chains of integer operators over arguments of different widths"""
+    d = dict(max_bits=9, max_args=3, depth=3, stmts=1, p_types=(0.1, 0.95, 0.97), widths=[2, 2, 3, 4, 5], mul_max_w=3, ret_kinds=["int", "int", "bool"], p_hostile=0.02)
+    d.update(kw)
+    c = Cfg(**d)
+    c.allow = c.allow - {"builtins", "varindex", "for", "multi", "pow", "cast"}
+    return c
 
 
 def collections_cfg(**kw):
